@@ -889,6 +889,9 @@ func genRefl(stream string, seed uint64, n int) []GenCase {
 		shadow := []string{"x = F0; F0 = \"shadow\"; return [x, F0];", "x = F1; F0 = \"shadow\"; return [F0, x, F0];",
 			"if (F0 == F0) { F0 = 7; } return F0;", "y = [F0, F1, Missing]; F0 = 1; F1 = 2; Missing = 3; return [F0, F1, Missing, y];",
 			"F0 = F0; F0 = [F0, F0]; return F0;", "x = F1; return [HostV, F0, x, HostV];", "foreach v in [1, 2] { F0 = v; w = F1; } return [F0, w];",
+			// the legacy `$` prefix names the same thing as the bare name: the variable first, then the field
+			"F0 = \"shadow\"; return [$F0, F0, $F1];", "function g(F0) { return [$F0, F0]; } return [g(7), $F0];", "x = $F0; F0 = 1; return [x, $F0, F0];",
+			"return [$HostV, HostV, $F1, F1];",
 			// a variable whose value is null shadows the field like any other
 			"F0 = Missing; return [F0, type(F0), F1];", "function g() { local F0; return [F0, F1]; } return [g(), F0];",
 			"function g() { local F1; F1 = Missing; return F1; } x = g(); F0 = x; return [x, F0, F1];", "return [NullV, F0, HostV];"}
